@@ -369,6 +369,8 @@ def run(ctx, rep):
                "9 states agree" if not bad_e else "; ".join(bad_e[:2]), fer.loc, kind="table")
 
     # ------------------------------------------------------------------ R15.5
+    # waiting polls the connection's descriptor whatever its number (= R16.7)
+    K.share(ctx, rep, "c16", lambda o: o.rule == "R16.7", "R15.4", floor=2)
     T = "rpyc.lib.Timeout"
     fx = ctx.func(T + ".expired")
     rx = [n for n in A.walk(fx.node) if isinstance(n, ast.Return)]
